@@ -215,11 +215,34 @@ def go_env(extra=None):
 
 
 def go_test(pkg, run, env=None, timeout=900, race=False, wd=None, tags="verif", count=1, parallel=None,
-            test_timeout=None):
+            test_timeout=None, race_rerun=None):
     """Run overlaid harness tests of ./<pkg> in /repo's working tree.
 
     Returns dict(rc, out, wall_s). rc: 0 pass, 1 test failure, 2 build failure.
+
+    race_rerun (default: for every package but region, whose drivers judge races themselves): a race report between two
+    accesses of the client itself ends a scenario bubble - and with it the driver - at once (synctest.Test fails the outer
+    test). A race is not by itself a verdict about the property, so the driver is run again WITHOUT the race detector and
+    that run's observations decide; the race report is kept in the returned dict (client_race).
     """
+    if race_rerun is None:
+        race_rerun = pkg != "region"
+    if race and race_rerun:
+        r = go_test(pkg, run, env=env, timeout=timeout, race=True, wd=wd, tags=tags, count=count, parallel=parallel,
+                    test_timeout=test_timeout, race_rerun=False)
+        v = classify_race(r["out"]) if r["rc"] != 0 else None
+        if not v:
+            return r
+        log("  go test %s -run %s: the race detector reports a race inside the client; running the driver again without it" % (pkg, run))
+        outdir = (env or {}).get("VERIF_OUT")
+        if outdir and os.path.isdir(outdir):
+            for f in os.listdir(outdir):
+                if f.endswith(("_result.json", ".ndjson")) and not (env or {}).get("VERIF_IN") == outdir:
+                    os.remove(os.path.join(outdir, f))
+        r2 = go_test(pkg, run, env=env, timeout=timeout, race=False, wd=None, tags=tags, count=count, parallel=parallel,
+                     test_timeout=test_timeout, race_rerun=False)
+        r2["client_race"] = v["desc"]
+        return r2
     wd = wd or scratch("verif-go-")
     ov = build_overlay(wd)
     cmd = [GO, "test", "-vet=off", "-overlay=" + ov, "-count=%d" % count, "-run", run,
@@ -414,8 +437,9 @@ def classify_race(out):
     secs = block.split("\n\n")
     tops = []
     for sec in secs[:2]:
-        m = re.search(r"\n\s+(/\S+\.go):(\d+)", sec)
-        tops.append(m.group(1) if m else "")
+        # the innermost frame that is not the Go runtime / standard library (a copy() shows as runtime.slicecopy)
+        fr = [f for f in re.findall(r"\n\s+(/\S+\.go):\d+", sec) if "/src/runtime/" not in f and not re.search(r"/go[0-9.]*/src/", f)]
+        tops.append(fr[0] if fr else "")
     def in_client(p):
         return p.startswith(REPO + "/") and "zz_verif" not in p and "/internal/verifsim/" not in p
     if len(tops) == 2 and all(in_client(p) for p in tops):
